@@ -83,6 +83,7 @@ def check(ctx) -> None:
     repo = ctx.repo
     ctx.rule("C28.restore", "PAIR-FINALLY: after a mutated child is spliced into the shared tree every path to any exit of the visiting generator (incl. GeneratorExit at the yield) passes the restoring write", floor=2)
     ctx.rule("C28.pure", "TAINT: no mutate_* visitor assigns, deletes or calls a mutating method through its `node` parameter or an alias of a part of it", floor=60)
+    ctx.rule("C28.index-space", "a position bound by enumerate(E) subscript-stores only into the list E enumerates (itself or a plain copy): splice and restore hit the slot of the visited child", floor=2)
     ctx.rule("C28.count", "mutation_count / _select_mutations / _generate_all_mutations enumerate `op.mutate(target_ast, module)` over self.operators", floor=3)
     ctx.rule("C28.exhaust", "after a regenerated mutant is yielded the operator generator is driven to exhaustion before the next mutation is applied", floor=2)
 
@@ -179,6 +180,28 @@ def check(ctx) -> None:
             else:
                 ctx.ok("C28.pure", fn, f"{c}.{mname}: no write through `{seed}` ({len(tainted)} alias names)")
     ctx.extra["mutate_visitors"] = n_visitors
+
+    # ------------------------------------------------------------------ C28.index-space
+    # a position obtained from enumerate(E) may only subscript-store into a list that has E's length and order
+    n_idx = 0
+    for qn, fn in repo.module(BASE).functions.items():
+        for lp in own_nodes(fn):
+            if not (isinstance(lp, ast.For) and isinstance(lp.iter, ast.Call) and norm(lp.iter.func) == "enumerate" and isinstance(lp.target, ast.Tuple) and isinstance(lp.target.elts[0], ast.Name) and lp.iter.args):
+                continue
+            idx, src = lp.target.elts[0].id, lp.iter.args[0]
+            for st in ast.walk(lp):
+                if isinstance(st, ast.Assign) and isinstance(st.targets[0], ast.Subscript) and isinstance(st.targets[0].slice, ast.Name) and st.targets[0].slice.id == idx:
+                    lst = norm(st.targets[0].value)
+                    src_txt = norm(src)
+                    if isinstance(src, ast.Name):
+                        defs = [n.value for n in own_nodes(fn) if isinstance(n, ast.Assign) and norm(n.targets[0]) == src.id]
+                        src_txt = norm(defs[0]) if len(defs) == 1 else src_txt
+                    same = src_txt in (lst, f"{lst}.copy()", f"list({lst})", f"tuple({lst})", f"{lst}[:]")
+                    n_idx += 1
+                    ctx.analysed(fn)
+                    ctx.check("C28.index-space", st, same, f"{qn}: `{norm(st)[:60]}` stores at a position counted over `{src_txt[:60]}`, which is not `{lst}` itself: when entries were filtered out or reordered the mutated child is spliced into - and the original restored into - the wrong slot, so the original tree is changed for good and the mutant differs outside its mutated node", what=f"{qn}: position of {lst} from enumerate({src_txt[:30]})", stmt=f"[{qn}] {norm(st)[:50]}")
+    if n_idx == 0:
+        raise AnalysisError("C28.index-space: no positional splice found in the operator base")
 
     # ------------------------------------------------------------------ C28.count
     def enum_exprs(fn):
